@@ -30,6 +30,8 @@ pub trait CmdFs
 pub enum Instr
 {
     EmitCopy { t: String, src: String },
+    /// on the real file system the target is a symbolic link to the source (absolute); elsewhere a copy
+    EmitLink { t: String, src: String },
     /// like EmitCopy, but the target also gets the source's modification time (`cp -p`)
     EmitCopyP { t: String, src: String },
     EmitConst { t: String, tag: String },
@@ -53,6 +55,7 @@ impl Instr
         {
             Instr::EmitCopy { t, src } => format!("emit {} copy {}", t, src),
             Instr::EmitCopyP { t, src } => format!("emit {} copyp {}", t, src),
+            Instr::EmitLink { t, src } => format!("emit {} link {}", t, src),
             Instr::EmitConst { t, tag } => format!("emit {} const {}", t, tag),
             Instr::EmitMix { t, tag, srcs } =>
             {
@@ -78,7 +81,7 @@ impl Instr
     {
         match self
         {
-            Instr::EmitCopy { t, .. } | Instr::EmitCopyP { t, .. } | Instr::EmitConst { t, .. } | Instr::EmitMix { t, .. } | Instr::ChmodX { t } => Some(t),
+            Instr::EmitCopy { t, .. } | Instr::EmitCopyP { t, .. } | Instr::EmitLink { t, .. } | Instr::EmitConst { t, .. } | Instr::EmitMix { t, .. } | Instr::ChmodX { t } => Some(t),
             _ => None,
         }
     }
@@ -98,6 +101,8 @@ pub fn parse_line(line: &str) -> Result<Vec<Instr>, String>
         {
             "emit" if chunk.len() >= 4 && chunk[2] == "copy" && chunk.len() == 4 =>
                 Instr::EmitCopy { t: chunk[1].to_string(), src: chunk[3].to_string() },
+            "emit" if chunk.len() == 4 && chunk[2] == "link" =>
+                Instr::EmitLink { t: chunk[1].to_string(), src: chunk[3].to_string() },
             "emit" if chunk.len() == 4 && chunk[2] == "copyp" =>
                 Instr::EmitCopyP { t: chunk[1].to_string(), src: chunk[3].to_string() },
             "emit" if chunk.len() == 4 && chunk[2] == "const" =>
@@ -136,7 +141,7 @@ pub fn run_line<F: CmdFs>(fs: &mut F, line: &str) -> (i32, String)
     {
         match i
         {
-            Instr::EmitCopy { t, src } =>
+            Instr::EmitCopy { t, src } | Instr::EmitLink { t, src } =>
             {
                 match fs.read(&src)
                 {
